@@ -454,6 +454,11 @@ def run(F, R):
                 R.check("C18-R4", "cleared-always-on-success", not (set(nxt) & r1) and not (set(nxt) & r3) and cmts, "after a successful report the flag is reset and the removal committed before going on", "a successful report can be repeated (flag/record not cleared)")
             start = [bi for bi, t in rv.calls() if t.get("trait") == "time::TimeSource" and t["name"] == "now_in_monotonic"]
             R.check("C18-R4", "start-instant-once", len(start) == 1 and not inloop(start[0]), "state-machine start instant taken once before the loop", "the start instant is re-read inside the loop")
+            # .. and before the stored record is read: waiting for the storage (its mutex, a slow backend) must not count as time waited for the reboot
+            from .. import locks as _locks
+            st_ops = [bi for bi, t in rv.calls() if t.get("trait") in ("storage::Storage", "storage::StorageExt") or _locks.lock_kind_of_call(c, t) == "ST"]
+            R.check("C18-R4", "start-instant-before-storage", len(start) == 1 and st_ops and start[0] not in rv.reach_from(st_ops), "the start instant is taken before the storage is locked or read",
+                    "the start instant is taken after storage operations: the time spent waiting for the storage is reported as time waited for the reboot", lib.loc(rv, start[0]) if start else None)
             a_fin = terms.render(rv, rv.trace_op(rt["args"][1]), W, {})
             a_start = terms.render(rv, rv.trace_op(rt["args"][2]), W, {})
             R.check("C18-R4", "report-arguments", "get_time(" in a_fin and "'update_finish_time'" in a_fin and a_start.startswith("now_in_monotonic("), "report(finish time from storage, start instant, now)", "report arguments: %s ; %s" % (a_fin[:80], a_start[:80]))
